@@ -365,14 +365,14 @@ func init() {
 			return out
 		},
 		Families: []core.Family{
-			{Name: "v5-per-call-limit", Count: n(40000, 800000), Run: func(c *core.Ctx, idx int) {
+			{Name: "v5-per-call-limit", Count: n(40000, 1600000), Run: func(c *core.Ctx, idx int) {
 				esc := c.R.Intn(2) == 0
 				sc := c12Seq(c, esc, false)
 				o := V5Opts{NegIdx: true, EscapeHTML: esc}
 				o.Limit = chooseLimit(c, evalWithLimit(sc, o))
 				judgeV5(c, sc, o, false)
 			}},
-			{Name: "v5-any-spelling", Count: n(20000, 400000), Run: func(c *core.Ctx, idx int) {
+			{Name: "v5-any-spelling", Count: n(20000, 800000), Run: func(c *core.Ctx, idx int) {
 				// sizes are taken from the library's own output spelling, so documents need not be encoder-spelled
 				sc := c12AnySeq(c)
 				o := V5Opts{NegIdx: true, EscapeHTML: c.R.Intn(2) == 0}
@@ -393,7 +393,7 @@ func init() {
 				judgeV5(c, sc, o, false)
 				c.Count("any-spelling:judged")
 			}},
-			{Name: "v5-per-call-limit-vs-package-default", Count: n(8000, 160000), Run: func(c *core.Ctx, idx int) {
+			{Name: "v5-per-call-limit-vs-package-default", Count: n(8000, 320000), Run: func(c *core.Ctx, idx int) {
 				// the per-call option decides alone: whatever the package default is while the call runs
 				// (options were created before it changed, or were given a limit of their own, 0 included)
 				esc := c.R.Intn(2) == 0
@@ -416,7 +416,7 @@ func init() {
 				judgeV5(c, sc, o, false)
 				jp.AccumulatedCopySizeLimit = saved
 			}},
-			{Name: "v5-options-value-reused", Count: n(6000, 120000), Run: func(c *core.Ctx, idx int) {
+			{Name: "v5-options-value-reused", Count: n(6000, 240000), Run: func(c *core.Ctx, idx int) {
 				// one *ApplyOptions value passed to four calls in a row (limits set on it before each call):
 				// what an earlier call did - in particular one that failed after some copies - must not count
 				reuseOpts = jp.NewApplyOptions()
@@ -435,13 +435,13 @@ func init() {
 				}
 				c.Count("options-value-reused:sequences")
 			}},
-			{Name: "v5-package-default", Count: n(10000, 200000), Run: func(c *core.Ctx, idx int) {
+			{Name: "v5-package-default", Count: n(10000, 400000), Run: func(c *core.Ctx, idx int) {
 				sc := c12Seq(c, true, false)
 				o := V5Opts{NegIdx: true, EscapeHTML: true}
 				o.Limit = chooseLimit(c, evalWithLimit(sc, o))
 				judgeV5(c, sc, o, true)
 			}},
-			{Name: "legacy-package-default", Count: n(15000, 300000), Run: func(c *core.Ctx, idx int) {
+			{Name: "legacy-package-default", Count: n(15000, 600000), Run: func(c *core.Ctx, idx int) {
 				sc := c12Seq(c, true, true)
 				o := V5Opts{NegIdx: true, EscapeHTML: true}
 				lv := evalWithLimit(sc, o)
